@@ -10,6 +10,9 @@ TEST_CMD = "cd /repo && /venv/bin/python -m pytest -ra -q -p no:cacheprovider --
 
 # id -> (level, technique, text, note, design_ref)
 CHECKS = {
+ "C13": ("model_checking", "TLC on spec/NormDrop.tla (exact rational running statistics; Dropout mask as nondeterministic choice) + replay of every history; the driver follows the spec branch (mask) that explains each Dropout output",
+         "all train/eval/set-stats/forward histories up to MaxHist for every BatchNorm constructor option on 2-d/3-d/4-d batches; Dropout forward/backward mask consistency for p in {0,1/2,3/4,1}",
+         "normalised value interpreted with mpmath; independence/probability of the mask is a fixed-seed statistical side check", "5/C13"),
  "C08": ("model_checking", "TLC on spec/Optim.tla (exact rational SGD/Adam/AdamW trajectories) + replay of every emitted history on real optimizers",
          "every interleaving of backward/zero_grad/step/freeze up to MaxHist over dyadic hyper-parameter grids; parameter values, storage identity, dtype, shape compared after every call",
          "Adam restricted to rational-square-root behaviours; SGD maximize+weight_decay accepts either documented variant", "5/C08"),
